@@ -282,7 +282,13 @@ func cmdConcStress(args []string) {
 			shared = append(shared, h)
 		}
 	}
-	tmpls := []string{"{{.Vector}} {{.BaseScore}} {{.SeverityValue}}", "{{if .AVValue}}{{.AVName}}={{.AVValue}}{{end}}", "{{.NoField}}", "{{.Vector"}
+	// the last three define a nested template of the SAME name with different bodies (and many rows between the
+	// definition and its use): exports must not see each other's definitions
+	rows := strings.Repeat("{{.AVName}}={{.AVValue}};", 40)
+	tmpls := []string{"{{.Vector}} {{.BaseScore}} {{.SeverityValue}}", "{{if .AVValue}}{{.AVName}}={{.AVValue}}{{end}}", "{{.NoField}}", "{{.Vector",
+		`{{define "sev"}}[{{.SeverityName}}: {{.SeverityValue}}]{{end}}` + rows + `{{template "sev" .}}`,
+		`{{define "sev"}}<score {{.BaseScore}}>{{end}}` + rows + `{{template "sev" .}}`,
+		`{{block "sev" .}}blk {{.Vector}}{{end}}` + rows + `{{template "sev" .}}`}
 	type op struct {
 		kind string
 		a, b int
@@ -340,7 +346,7 @@ func cmdConcStress(args []string) {
 		}
 		return "?"
 	}
-	kinds := []string{"decode", "query", "query", "view", "report", "names", "fresh"}
+	kinds := []string{"decode", "query", "query", "view", "report", "report", "names", "fresh"}
 	progs := make([][]op, *ng)
 	for g := range progs {
 		rng := newRand(7700 + g)
